@@ -488,6 +488,18 @@ func (o *Obligation) smt(timeoutMs int) string {
 			b.WriteString("(assert (distinct " + strings.Join(names, " ") + "))\n")
 		}
 	}
+	// an axiom may speak about values boxed into an open interface (`w is T`, `w.(T)`):
+	// the boxing symbols it mentions are declared ahead of it, wherever in the function
+	// (or during the translation of the axiom itself) they were first needed
+	early := map[int]bool{}
+	if strings.Contains(gp, "dyntag") || strings.Contains(gp, "box_") {
+		for i, d := range vc.decls {
+			if strings.HasPrefix(d, "(declare-fun box_") || strings.HasPrefix(d, "(declare-fun unbox_") || strings.HasPrefix(d, "(declare-fun dyntag ") {
+				b.WriteString(d + "\n")
+				early[i] = true
+			}
+		}
+	}
 	b.WriteString(gp)
 	// facts first (control-flow slicing), then only the definitions they and the goal
 	// mention, transitively: a define-fun nobody refers to is dead text, and in long
@@ -525,7 +537,7 @@ func (o *Obligation) smt(timeoutMs int) string {
 		}
 	}
 	for i, d := range decls {
-		if keep[i] {
+		if keep[i] && !early[i] {
 			b.WriteString(d + "\n")
 		}
 	}
